@@ -68,6 +68,46 @@ theorem convTo_self_arg (c : CTy) (v : Nat) : convTo c c (argBits c v) = argBits
   · subst hc; exact convTo_self_bool v
   · rw [convTo_self c _ hc]; exact Nat.mod_eq_of_lt (argBits_lt c v)
 
+/-! ### integer conversions keep the mathematical value when it fits -/
+
+/-- smallest / largest value of an integer C type -/
+def CTy.lo (c : CTy) : Int := if c.isSigned then -(2 ^ (c.bits - 1) : Nat) else 0
+def CTy.hi (c : CTy) : Int := if c.isSigned then (2 ^ (c.bits - 1) : Nat) - 1 else (2 ^ c.bits : Nat) - 1
+
+theorem convTo_int_eq (dst src : CTy) (raw : Nat) (hs : src.isFloat = false) (hd : dst.isFloat = false) (hdb : dst ≠ .bool) :
+    convTo dst src raw = (intVal src raw % ((2 ^ dst.bits : Nat) : Int)).toNat := by
+  unfold convTo
+  simp only [hs, Bool.false_eq_true, if_false]
+  cases dst <;> first | exact absurd rfl hdb | rfl | (simp [CTy.isFloat] at hd)
+
+private theorem c7 : ((128 : Nat) : Int) = 128 := rfl
+private theorem c8 : ((256 : Nat) : Int) = 256 := rfl
+private theorem c15 : ((32768 : Nat) : Int) = 32768 := rfl
+private theorem c16 : ((65536 : Nat) : Int) = 65536 := rfl
+private theorem c31 : ((2147483648 : Nat) : Int) = 2147483648 := rfl
+private theorem c32 : ((4294967296 : Nat) : Int) = 4294967296 := rfl
+private theorem c63 : ((9223372036854775808 : Nat) : Int) = 9223372036854775808 := rfl
+private theorem c64 : ((18446744073709551616 : Nat) : Int) = 18446744073709551616 := rfl
+
+theorem intVal_wrap (dst : CTy) (n : Int) (hd : dst.isFloat = false) (hdb : dst ≠ .bool)
+    (hfit : dst.lo ≤ n ∧ n ≤ dst.hi) : intVal dst ((n % ((2 ^ dst.bits : Nat) : Int)).toNat) = n := by
+  cases dst <;> first | exact absurd rfl hdb | (simp [CTy.isFloat] at hd; done) | skip
+  all_goals
+    simp only [CTy.lo, CTy.hi, CTy.bits, CTy.isSigned, Bool.false_eq_true, if_false, if_true, Nat.reducePow, Nat.reduceSub,
+      c7, c8, c15, c16, c31, c32, c63, c64] at hfit
+    simp only [intVal, CTy.bits, CTy.isSigned, Bool.true_and, Bool.false_and, Bool.false_eq_true, if_false,
+      Nat.reducePow, Nat.reduceSub, c8, c16, c32, c64]
+    first
+      | omega
+      | (split <;> rename_i h <;> first
+          | (have h' := of_decide_eq_true h; omega)
+          | (have h' := of_decide_eq_false (Bool.eq_false_iff.mpr h); omega))
+
+theorem convTo_int_value (dst src : CTy) (raw : Nat) (hs : src.isFloat = false) (hd : dst.isFloat = false)
+    (hdb : dst ≠ .bool) (hfit : dst.lo ≤ intVal src raw ∧ intVal src raw ≤ dst.hi) :
+    intVal dst (convTo dst src raw) = intVal src raw := by
+  rw [convTo_int_eq dst src raw hs hd hdb]
+  exact intVal_wrap dst _ hd hdb hfit
 /-! ### little-endian bytes -/
 
 def fromLE : List Nat → Nat
